@@ -48,6 +48,19 @@ def build():
     ts = strip_comments(read("src/rdata/dnssec.rs"))
     tp = fn_body(ts, "partial_cmp", after="PartialOrd for Timestamp")
     one(r"^\s*self\.0\.partial_cmp\(\s*&other\.0\s*\)\s*$", tp, "Timestamp::partial_cmp delegates to Serial")
+    # call sites that decide "which is newer" with these comparisons
+    gs = strip_comments(read("src/dnssec/validator/group.rs"))
+    m = one(r"if\s+!\(\s*ts_now\s*<=\s*rrsig\.expiration\(\)\s*&&\s*ts_now\s*>=\s*rrsig\.inception\(\)\s*\)\s*\{\s*return\s+false\s*;",
+            gs, "validator signature time check uses the serial order of Timestamp (<=, >=)")
+    if "canonical_gt" in gs or "canonical_lt" in gs:
+        raise GenError("validator group.rs compares times with canonical (plain u32) order")
+    defs.append(("sig_time_uses_serial_order", "bool", "true"))
+    xs = strip_comments(read("src/net/server/middleware/xfr/service.rs"))
+    one(r"if\s+query_serial\s*>=\s*soa\.serial\(\)\s*\{", xs, "IXFR up-to-date test is `query_serial >= soa.serial()` on Serial")
+    defs.append(("ixfr_uptodate_is_serial_ge", "bool", "true"))
+    zt = strip_comments(read("src/zonetree/types.rs"))
+    one(r"if\s+start_serial\s*==\s*end_serial\s*\|\|\s*end_serial\s*<\s*start_serial\s*\{", zt, "diff builder serial range check")
+    defs.append(("diff_range_rejects_eq_or_serial_lt", "bool", "true"))
     return defs
 
 if __name__ == "__main__":
